@@ -10,6 +10,7 @@ import (
 	"github.com/jwhited/corebgp"
 
 	"verif/internal/hz"
+	"verif/internal/memnet"
 	"verif/internal/rt"
 	"verif/internal/wire"
 )
@@ -149,7 +150,7 @@ func c03World(t *testing.T, p c03Params) rt.Result {
 		rc.W.Log.Add("tx", ps.Addr.String(), rc.ID, fmt.Sprintf("stream of %d messages (%d UPDATEs, %d bytes) partition=%s", p.N, len(sent), len(stream), p.Partition), "")
 		rc.SendCuts(stream, c03Cuts(r, p.Partition, len(stream), bounds), time.Nanosecond)
 		if p.End == "fin" {
-			rc.Pair.WriteAfterPeerCloseOK = true
+			rc.Pair.Configure(func(pp *memnet.Pair) { pp.WriteAfterPeerCloseOK = true })
 			rc.Close()
 		}
 		time.Sleep(time.Duration(p.N)*11*time.Millisecond + 10*time.Millisecond)
